@@ -1061,7 +1061,7 @@ class FnTr:
     # ---- statements -----------------------------------------------------------------------------
     def contains_return(self, node):
         if isinstance(node, tuple):
-            if node and node[0] in ("return", "continue"):
+            if node and node[0] in ("return", "continue", "break"):
                 return True
             if node and node[0] == "closure":
                 return False
@@ -1297,6 +1297,8 @@ class FnTr:
             k0 = e[0]
             if k0 == "macro" and e[1] in LOG_MACROS:
                 return cont(env)
+            if k0 == "break":
+                raise TErr("`break`: leaving a loop early is not in the translated subset (the loop is a fold over all iterations)")
             if k0 == "continue":
                 if not getattr(self.fn, "loop_step", False) or not allow_return:
                     raise TErr("continue outside the translated loop body")
@@ -1647,6 +1649,8 @@ class FnTr:
             # pure statement without effect (e.g. an if whose body only logs): nothing in it may be a call we cannot see through
             if self.has_opaque_call(e):
                 raise TErr("statement without visible effect contains a call whose effect is unknown")
+            if self.contains_try(e):
+                raise TErr("statement without visible effect contains `?` (it may leave the function)")
             return cont(env)
         st = self.state_tuple(acc)
         fin = lambda env2: st
